@@ -126,10 +126,12 @@ def updateObject {V} (e : Elem V) (o : Obj V) (a : Args) : Except Err (Obj V) :=
   | .error x => .error x
   | .ok data => .ok (data.foldl (fun o p => o.set p.1 p.2) o)   -- `for attribute, value in data.items(): setattr(...)`
 
-/-- `attributes = fields.copy(); attributes.update([key for key, value in dict(rename).items() if value in fields])`:
-    the declared fields, plus every name the renaming (seen as a mapping) sends to a declared field -/
+/-- `renamed = dict(rename)`; `attributes = fields - renamed.keys()` then
+    `attributes.update([key for key, value in renamed.items() if value in fields])` (fix 786474b):
+    a renamed name counts only through its rename target -/
 def renAttrs (fields : List Str) (ren : List (Str × Str)) : List Str :=
-  fields ++ ((dictOf ren).filter fun p => fields.contains p.2 && !fields.contains p.1).map (·.1)
+  (fields.filter fun f => !(keys (dictOf ren)).contains f) ++
+    ((dictOf ren).filter fun p => fields.contains p.2).map (·.1)
 
 def sortStrs (l : List Str) : List Str := (sortByKey (l.map fun s => (s, ()))).map (·.1)
 
@@ -156,8 +158,9 @@ def dictSetValue {V} (S : Schema V) (final : List (Str × V)) : Option Err × El
 
 /-- `sorted(attributes)` after the rename scan and the removal of omitted names -/
 def candidates (fields : List Str) (a : Args) : List Str :=
-  let attrs := renAttrs fields a.ren                       -- `if rename: attributes.update([...])`
-  sortStrs (attrs.filter fun x => !a.om.contains x)        -- `if omit: attributes.difference_update(omit)`
+  let attrs := renAttrs fields a.ren
+  -- `if omit: attributes.difference_update([key for key in omit if key not in renamed])`
+  sortStrs (attrs.filter fun x => !(a.om.contains x && !(keys (dictOf a.ren)).contains x))
 
 /-- `((attr, getattr(obj, attr)) for attr in sorted(attributes) if hasattr(obj, attr))` -/
 def readable {V} (o : Obj V) (cand : List Str) : List (Str × V) :=
